@@ -3,7 +3,7 @@
 scratch worktree of /repo (PVC_REPO), and prints a table.   python3 tools/seedall.py [name ...] [--also C03]"""
 import json, os, subprocess, sys, shutil
 V = os.path.dirname(os.path.dirname(os.path.abspath(__file__)))
-WT = "/tmp/pvc_seedall_wt"
+WT = f"/tmp/pvc_seedall_wt_{os.getpid()}"
 
 
 def sh(c):
